@@ -28,11 +28,19 @@ def gen_cases(seed, tier, n):
         c["params"] = {}
         if i % 3 == 1:
             tracegen.relabel_ranks(c)      # a subset of a job: rank ids are not 0..n-1, and not listed in order
+        if i % 6 == 3:
+            # history: the trace is decoded for display (decode_symbol_ids(), shortened names) before the analysis runs; some kernels have
+            # names whose kind is decided by the part the shortening strips
+            import random as _r
+            tracegen.tricky_kernel_names(c, _r.Random(seed * 271 + i))
+            c["params"]["decoded"] = True
         if i % 8 == 6:
             # sub-microsecond resolution: the file holds the case's times divided by 4 (exact binary fractions) and is loaded with
             # HTA_DISABLE_NS_ROUNDING=1, so the analysis sees fractional times; the ratio is scale invariant, the model runs on the
             # integer case
             fw.set_quarter_us(c)
+        if i % 16 == 11 and not c["params"].get("quarter_us"):
+            tracegen.scale_case(c, 10 ** 8)     # a long trace: sums beyond 2**24 and 2**31 (the models are homogeneous in time)
         out.append(c)
     return out
 
@@ -43,6 +51,8 @@ def run_impl(case, d):
         sym = ta.t.symbol_table.get_sym_table()
         ranks = sorted(ta.t.get_ranks())
         frames = {r: fw.dump_frame_res(case, ta.t.get_trace(r), sym) for r in ranks}
+        if case["params"].get("decoded"):
+            ta.t.decode_symbol_ids()
         try:
             df = ta.get_comm_comp_overlap(visualize=False)
             out = {int(rec["rank"]): float(rec["comp_comm_overlap_pctg"]) for rec in df.to_dict("records")}
